@@ -76,7 +76,7 @@ def options(rng, tier, compress=None, zoom_mode=None, small_index=False):
     return o, zm
 
 def autosql_choice(rng, rests):
-    k = rng.choice(["none", "none", "bed3ish", "text", "unparsable", "multibyte"])
+    k = rng.choice(["none", "none", "bed3ish", "text", "unparsable", "multibyte"] * 3 + ["long"])
     if k == "none":
         return [], k
     if k == "bed3ish":
@@ -84,6 +84,9 @@ def autosql_choice(rng, rests):
             "".join(' lstring f%d; "extra"\n' % i for i in range(rng.choice([0, 1, 3, 9]))) + ")\n"
     elif k == "text":
         s = 'table t "x" (string a; "A" uint b; "B")'
+    elif k == "long":
+        # longer than any reader-side buffer (8 KiB): must come back whole
+        s = 'table longdoc\n"' + "documentation " * 700 + '"\n(\n string chrom; "c"\n uint chromStart; "s"\n uint chromEnd; "e"\n)\n'
     elif k == "unparsable":
         s = rng.choice(["", "not a schema at all", "table (", "  \n\t", "table t \"c\" ( int x )"])
     else:
